@@ -230,6 +230,11 @@ def run(fx, tier):
                     key='C12:R-DOM:should_reconnect:timed_out', where=f.file)
     if (have_a is False or have_b is False) and not v.violations:
         raise AnalysisBroken('timer computation functions not found: %s' % v.notes)
+    # the Server Keep Alive is read from mqtt_ctx::ca_props: it must be the CONNACK of THIS connection (shared with C15)
+    from c15 import capability_source
+    if 'R-OWN' not in v.rules:
+        v.rule('R-OWN', 'connack_property reads mqtt_ctx::ca_props, stored only by connect_op::on_connack before the connect can complete or continue')
+    capability_source(fx, v, 'C12')
     v.expect_min('R-FLOW', 20, 'sources and arming sites × TUs')
     v.expect_min('R-ARITH', 16, 'two timer functions × instantiations × (zero, all-K)')
     v.expect_min('R-CGRAPH', 30, 'ping loop paths')
